@@ -624,7 +624,7 @@ func (h *handler1) handleConnect(ctx context.Context, snConnect *snPkts1.Connect
 	// The ProtocolId [...] is coded 0x01. All other values are reserved.
 	// MQTT-SN specification v. 1.2, chapter 5.3.8
 	if snConnect.ProtocolID != 0x01 {
-		return h.snSend(snPkts1.NewConnack(snPkts1.RC_NOT_SUPPORTED))
+		return h.refuseConnect(snPkts1.RC_NOT_SUPPORTED)
 	}
 
 	// A CONNECT in the asleep or awake state only signalizes the transition
@@ -657,7 +657,7 @@ func (h *handler1) handleConnect(ctx context.Context, snConnect *snPkts1.Connect
 	// exploitable memory leaks.
 	// Hence, we simply do not accept zero keepalive.
 	if snConnect.Duration == 0 {
-		return h.snSend(snPkts1.NewConnack(snPkts1.RC_NOT_SUPPORTED))
+		return h.refuseConnect(snPkts1.RC_NOT_SUPPORTED)
 	}
 
 	h.keepAlive = snConnect.Duration
@@ -684,6 +684,21 @@ func (h *handler1) handleConnect(ctx context.Context, snConnect *snPkts1.Connect
 	transaction := newConnectTransaction(ctx, h, h.cfg.AuthEnabled, mqConnect)
 	h.transactions.StoreByType(snPkts.CONNECT, transaction)
 	return transaction.Start(ctx)
+}
+
+// refuseConnect answers a CONNECT which the gateway does not accept.
+//
+// The session of a client which has not been connected yet is closed: no
+// connect transaction (with its timeout) is left and no broker keepalive applies,
+// hence nothing would ever close the session if the client did not try again.
+func (h *handler1) refuseConnect(returnCode snPkts1.ReturnCode) error {
+	if err := h.snSend(snPkts1.NewConnack(returnCode)); err != nil {
+		return err
+	}
+	if h.state.Get() == util.StateDisconnected {
+		return fmt.Errorf("CONNECT refused (%s)", returnCode)
+	}
+	return nil
 }
 
 func (h *handler1) handleSubscribe(ctx context.Context, snSubscribe *snPkts1.Subscribe) error {
